@@ -173,6 +173,17 @@ def main():
         if not bad:
             chk.held(h([j["term"], j["budget"], j["lang"], j["pv"]]) if G.term_size(j["term"]) < 2000 else h([fam, j["id"]]), sample=w if j["id"] % 2999 == 11 else None)
 
+    # ---------- type-directed boundary arguments per builtin under every semantics variant (the
+    # workload of C04; here only crashes, hangs and deaths are judged). Random constant kinds above
+    # rarely give a builtin a well-typed argument at the edge of its domain (e.g. a negative byte
+    # for consByteString under the V1/V2 wrapping semantics).
+    import uplc_checks as U
+
+    variants = [("v3", 11), ("v2", 11), ("v3", 10), ("v2", 9), ("v1", 8)]
+    bres = U.run_tasks([("builtin", n, 250 if quick else 6000, chk.seed + 1, variants, None) for n in U.builtin_names()])
+    totals = U.collect(bres, chk, props={"C10"})
+    chk.count("fam:builtin-boundary-arguments-x-semantics-variants", totals["cases"])
+
     # ---------- terms decoded from mutated flat bytes, then evaluated (shared with C20)
     import c20 as C20
 
